@@ -88,10 +88,15 @@ def certificate_cases(rng, n):
         if form.endswith('/noep') and not single:
             form = form.split('/')[0] + '/ep'
         Xin = X.astype(np.int64) if form.startswith('int64') else X
-        if form.endswith('/noep'):
-            reg = pykoop.Edmd(alpha=alpha).fit(Xin[:, 1:], n_inputs=nu, episode_feature=False)
-        else:
-            reg = pykoop.Edmd(alpha=alpha).fit(Xin, n_inputs=nu, episode_feature=True)
+        try:
+            if form.endswith('/noep'):
+                reg = pykoop.Edmd(alpha=alpha).fit(Xin[:, 1:], n_inputs=nu, episode_feature=False)
+            else:
+                reg = pykoop.Edmd(alpha=alpha).fit(Xin, n_inputs=nu, episode_feature=True)
+        except Exception as e:  # noqa  (Edmd.fit raising on finite data with at least one training pair is a failing case)
+            bad.append(dict(what=f'Edmd.fit raised {type(e).__name__}: {e} on a valid data matrix', alpha=alpha, n_states=ns,
+                            n_inputs=nu, shape=shape, X=X.tolist(), data_given_as=form))
+            continue
         dist[f'data as {form}'] = dist.get(f'data as {form}', 0) + 1
         U = reg.coef_.T
         # numeric certificate + optimality against the closed-form competitor and random competitors
@@ -141,10 +146,14 @@ def recovery_cases(rng, n, ids=()):
             AB0 *= rng.choice([0.5, 0.9, 1.2]) / max(1e-9, float(np.max(np.abs(np.linalg.eigvals(AB0[:, :ns])))))
             A, B = AB0[:, :ns], AB0[:, ns:]
             n_eps = int(rng.integers(ns + 1, ns + 4))
+        two = cid % 5 == 4 and not deficient
+        if two:
+            # a log of many episodes of exactly two samples (one training pair each)
+            n_eps = ns + nu + int(rng.integers(3, 8))
         rows = []
         for l in range(n_eps):
             x = rng.normal(size=ns)
-            for _ in range((int(rng.integers(3, 6))) if deficient else ns + nu + int(rng.integers(3, 10))):
+            for _ in range(2 if two else ((int(rng.integers(3, 6))) if deficient else ns + nu + int(rng.integers(3, 10)))):
                 u = rng.normal(size=nu)
                 rows.append([float(l)] + list(x) + list(u))
                 x = A @ x + B @ u
@@ -192,7 +201,9 @@ def recovery_cases(rng, n, ids=()):
                 bad.append(dict(what='regressor does not recover [A B] from noise-free data of a linear system',
                                 regressor=name, n_states=ns, n_inputs=nu, error=err, arrangement=arr, A=A.tolist(), B=B.tolist(),
                                 X=X.tolist(), **info))
-        # pipeline clause
+        # pipeline clause (episodes of two samples are too short for a delay stage: no training pair would be left)
+        if two and ns + nu > 3:
+            continue
         evals += 1
         chain = [('poly', 2, False)] if ns + nu <= 3 else [('delay', 1, 1)]
         kp = pykoop.KoopmanPipeline(lifting_functions=[('a', direct.build_real(chain[0]))],
